@@ -32,8 +32,14 @@ Levels(h, lv0, b) == {lv0[b]} \cup { h[b][i][2] : i \in 1..Len(h[b]) }
 
 IndValue(p, S, h, lv0, ind) ==
   CASE ind.cls = "IndicatorResourceUtilization" ->
+         \* the percentage of THE horizon: the user's one; without a user horizon, the horizon the solution reports
+         \* (S.hz, known when a reported solution is validated); while no horizon is known it can be anything from the
+         \* last end onwards, which only bounds the value from above
          LET x == 100 * BusyTime(p, S, ind.res)
-         IN  <<FloorDiv(x, p.H), CeilDiv(x, p.H)>>
+             lastEnd == MaxOf({0} \cup { S.e[t] : t \in SchedOf(S, Tasks(p)) })
+         IN  IF "hz" \in DOMAIN S THEN (IF S.hz > 0 THEN <<FloorDiv(x, S.hz), CeilDiv(x, S.hz)>> ELSE <<0, 0>>)
+             ELSE IF p.user_horizon THEN <<FloorDiv(x, p.H), CeilDiv(x, p.H)>>
+             ELSE <<0, IF lastEnd > 0 THEN CeilDiv(x, lastEnd) ELSE 0>>
     [] ind.cls = "IndicatorNumberTasksAssigned" ->
          \* tasks, not units: a task holding two units of a cumulative worker counts once
          LET n == Cardinality({ p.uses[u].task : u \in UsedOf(S, UsesOfRes(p, ind.res)) }) IN <<n, n>>
@@ -108,6 +114,9 @@ IndConHolds(p, S, h, lv0, c) ==
 
 \* corners the documentation leaves open
 UnspecIndOne(p, S, ind) ==
+  (IF ind.cls = "IndicatorResourceUtilization" /\ ~p.user_horizon /\ "hz" \notin DOMAIN S
+   THEN {"utilisation-before-the-horizon-is-known"} ELSE {})
+  \cup
   \* "the percentage of the horizon the resource is busy" / "idle time between a resource's tasks" have
   \* no agreed meaning for a resource that processes several tasks at once
   (IF ind.cls \in {"IndicatorResourceUtilization", "IndicatorResourceIdle", "FlowtimeSingleResource"}
